@@ -70,27 +70,37 @@ def coq_sources():
 
 
 def gen_kernels():
-    """Regenerate Gen/Kernels.v from /repo's current sources (translator); rewrite only on change."""
+    """Regenerate Gen/K<Module>.v from /repo's current sources (translator tools/gokernel).
+
+    The translator writes one file per source module into a scratch directory; a file is copied into coq/Gen only
+    when its content changed, so an unchanged tree costs no Coq rebuild.  When the translator refuses a construct
+    of one module it still writes that module's file, containing a definition that does not type-check plus the
+    reason, so that only the agreement lemmas of that module (Gen/Agree<Module>.v) stop compiling.
+    Returns (ok, message); ok is False only when the tool itself cannot be built or crashes."""
     tool = os.path.join(ROOT, "tools", "gokernel")
     if not os.path.exists(os.path.join(tool, "main.go")):
         return True, ""
     binp = os.path.join(BUILD, "gokernel")
+    os.makedirs(BUILD, exist_ok=True)
     rc, out, _ = sh(["go", "build", "-o", binp, "."], cwd=tool, env=dict(GOENV, GOFLAGS="", GO111MODULE="off"), timeout=600)
     if rc != 0:
         return False, "gokernel does not build:\n" + out
-    rc, out, _ = sh([binp, REPO], timeout=120)
-    target = os.path.join(COQ, "Gen", "Kernels.v")
-    if rc != 0:
-        # the translator refuses a construct: emit a file that does not compile, naming the reason
-        txt = "(* GENERATED - translator refused the current source *)\nFail Fail Definition translator_refused := tt tt.\n(* " + out.replace("*)", "* )") + " *)\n"
-        txt = "(* GENERATED *)\nDefinition translator_refused : True := 0.\n(* " + out.replace("*)", "* )") + " *)\n"
-    else:
-        txt = out
-    old = open(target).read() if os.path.exists(target) else None
-    if old != txt:
-        os.makedirs(os.path.dirname(target), exist_ok=True)
-        open(target, "w").write(txt)
-    return rc == 0, out if rc != 0 else ""
+    scratch = os.path.join(BUILD, "gen")
+    shutil.rmtree(scratch, ignore_errors=True)
+    os.makedirs(scratch)
+    rc, out, _ = sh([binp, REPO, scratch], timeout=120)
+    gen = os.path.join(COQ, "Gen")
+    os.makedirs(gen, exist_ok=True)
+    produced = sorted(glob.glob(os.path.join(scratch, "K*.v")))
+    if rc != 0 and not produced:
+        return False, "gokernel failed:\n" + out
+    for src in produced:
+        target = os.path.join(gen, os.path.basename(src))
+        txt = open(src).read()
+        old = open(target).read() if os.path.exists(target) else None
+        if old != txt:
+            open(target, "w").write(txt)
+    return True, out if rc != 0 else ""
 
 
 def coq_make(clean=False):
